@@ -6,6 +6,7 @@ import (
 	"fmt"
 	"io"
 	"path/filepath"
+	"strings"
 	"testing"
 
 	"pgregory.net/rapid"
@@ -168,11 +169,53 @@ func polyglot(rt *rapid.T, all []seeds.Seed) ([]byte, string) {
 	}
 }
 
+// volume: the same files again and again until more than 1 GiB (thorough: more than 4 GiB, past 2^32 bytes) has
+// gone through the auto loader in this process - byte counters, budgets and statistics that outlive a call
+func volume(target int64, bad map[string]bool) {
+	var files []gen.File
+	for _, format := range []string{"JPEG", "PNG", "WebP"} {
+		files = append(files, gen.LargeHeader(format, 4<<20))
+	}
+	var total int64
+	var first [3]string
+	n := 0
+	for total < target && ev.Violations() == 0 {
+		f := files[n%3]
+		s := &src.Source{Data: f.Data, FaultAt: -1}
+		a := ld.Run("auto", s)
+		total += s.Pos
+		sig := fmt.Sprintf("%v %s %dx%d %d icc=%d %q", a.OK, a.Format, a.W, a.H, a.Bits, a.ICCLen, a.Panic)
+		if n < 3 {
+			first[n] = sig
+			c := Case{Desc: f.Desc, Data: f.Data}
+			if k, w, _ := check(c); k != "" && !bad[k] {
+				bad[k] = true
+				c.Data = nil
+				ev.Violation("auto", k, w, c)
+			}
+		} else if sig != first[n%3] || !a.OK {
+			ev.Violation("auto", "volume", fmt.Sprintf("after %d MiB had passed through autometa.Load in this process, load number %d of the same %s file gives %s; the first gave %s", total>>20, n+1, f.Format, sig, first[n%3]),
+				Case{Desc: fmt.Sprintf("volume: load %d of %s", n+1, f.Desc)})
+		}
+		n++
+	}
+	ev.Eval(int64(n))
+	ev.Class("volume-loads", int64(n))
+	ev.Set("volume_mib", total>>20)
+}
+
 func TestC19(t *testing.T) {
 	if ev.Replaying() != nil {
 		var c Case
 		if err := ev.ReplayCase(&c); err != nil {
 			t.Fatal(err)
+		}
+		if strings.HasPrefix(c.Desc, "volume:") {
+			volume(4400<<20, map[string]bool{})
+			if ev.Violations() > 0 {
+				t.Fail()
+			}
+			return
 		}
 		if k, w, _ := check(c); k != "" {
 			ev.Fail(t, "auto", k, w, c)
@@ -180,7 +223,7 @@ func TestC19(t *testing.T) {
 		fmt.Println("REPLAY case passed")
 		return
 	}
-	ev.Rule("inputs: rapid-generated valid files of the three formats (C05/C06 grammar), rapid structure-aware mutations and truncations of those and of the repository/built/hostile seeds, polyglots (signature of one format + body of another, RIFF/WEBP header wrapping another file, PNG signature + 4 GiB chunk so the PNG loader drains the source, JPEG SOI+COM followed by another file, concatenations), random bytes, empty input; the auto loader additionally under short-read schedules, with the last bytes arriving together with EOF, and with reads that return nothing now and then. Oracle: the first of pngmeta/jpegmeta/webpmeta.Load that succeeds on the complete input (differential, incl. ICC error text), else (nil, error); the stream always replays the input; when autometa reads from a standard-library reader type, the matching specific loader is also given that reader type and must agree with itself on the bare input. non-trivial = distinct input on which an earlier candidate consumed > 8 bytes before failing, or which a non-first loader accepts")
+	ev.Rule("inputs: rapid-generated valid files of the three formats (C05/C06 grammar), rapid structure-aware mutations and truncations of those and of the repository/built/hostile seeds, polyglots (signature of one format + body of another, RIFF/WEBP header wrapping another file, PNG signature + 4 GiB chunk so the PNG loader drains the source, JPEG SOI+COM followed by another file, concatenations), random bytes, empty input; three 4 MiB-header files loaded over and over until > 1 GiB (thorough > 4 GiB) has passed through autometa in the process; the auto loader additionally under short-read schedules, with the last bytes arriving together with EOF, and with reads that return nothing now and then. Oracle: the first of pngmeta/jpegmeta/webpmeta.Load that succeeds on the complete input (differential, incl. ICC error text), else (nil, error); the stream always replays the input; when autometa reads from a standard-library reader type, the matching specific loader is also given that reader type and must agree with itself on the bare input. non-trivial = distinct input on which an earlier candidate consumed > 8 bytes before failing, or which a non-first loader accepts")
 	ev.Assume("both sides are prism code on the same bytes; independence of the specific loaders comes from C05/C06")
 	all := append(seeds.All(), seeds.Hostile()...)
 	bad := map[string]bool{}
@@ -234,6 +277,7 @@ func TestC19(t *testing.T) {
 		}
 	}
 	ev.Class("large-header", int64(3*len(ths)*2))
+	volume(int64(ev.Pick(1100, 4400))<<20, bad)
 	otherEnds := mut.Ends(all[4].Map, len(all[4].Data))
 	ev.RapidChecks(ev.Pick(5000, 200000))
 	ev.RapidSeed(19)
